@@ -458,6 +458,7 @@ impl<'a, SE: extensions::ShellExtensions> SimpleCommand<'a, SE> {
     ) -> ExecutionSpawnResult {
         let last_arg = Self::take_last_arg(&args);
         let join_handle = tokio::task::spawn_blocking(move || {
+            let mut stderr = params.stderr(&shell);
             let cmd_context = ExecutionContext {
                 shell: &mut shell,
                 command_name,
@@ -470,7 +471,12 @@ impl<'a, SE: extensions::ShellExtensions> SimpleCommand<'a, SE> {
             // Update $_ after command execution.
             shell.update_last_arg_variable(last_arg);
 
-            result
+            // The builtin runs in a subshell of its own: report an error there and reduce it
+            // to the command's status, so that it cannot abort anything in the parent shell.
+            result.or_else(|err| {
+                let _ = shell.display_error(&mut stderr, &err);
+                Ok(ExecutionResult::from(err.into_result(&shell).exit_code))
+            })
         });
 
         ExecutionSpawnResult::StartedTask(join_handle)
